@@ -8,6 +8,7 @@ from pcstatic.loader import norm
 from pcstatic.poly import Poly, Atom, P
 from pcstatic.sym import Const, Seq, as_poly
 from . import template as T
+from .c01 import modulus_of
 
 META = {
     "level": "other",
@@ -47,6 +48,13 @@ def run(ctx):
   rule_lehman(ctx)
   rule_highlow(ctx)
   rule_listed(ctx)
+  rule_always(ctx)
+  ctx.expect("R-C04-ALWAYS", 3, "three checks that search every key")
+  # "is factored, with both primes recorded": the recording helpers merge and update (shared with C01 / C16)
+  from . import c01, c16
+  ctx.borrow(c01.rule_merge, "R-C04-RECORD")
+  ctx.borrow(c16.rule_mono, "R-C04-RECORD", lambda r: r.construct == "attach-info" or (r.construct == "lookup-by-name" and r.where.endswith("GetAttachedInfo")))
+  ctx.expect("R-C04-RECORD", 3, "AttachFactors, AttachInfo, GetAttachedInfo")
   ctx.expect("R-C04-LISTED", 3, "sibling lengths, widths, lookup")
   ctx.expect("R-C04-HIGHLOW", 2, "test order, total advance")
   ctx.expect("R-C04-LEHMAN", 3, "convergents, Fermat step, bound")
@@ -73,8 +81,14 @@ def rule_fermat(ctx):
   info = loops[0]
   v = info["visits"][0]
   pre, head, k = v["pre"], v["head"], v["k"]
+  # roles: the candidate a is the carried variable that every completed pass advances (by one); b2 is whatever else is carried
+  bpaths = [bp for bp in info["body_paths"] if bp[0] in ("fall", "continue")]
+  cand = [nm for nm in info["modified"] if isinstance(head.env.get(nm), Poly) and head.env[nm].as_atom() is not None and head.env[nm].as_atom().kind == "sym" and bpaths and
+          all(isinstance(bp[2].env.get(nm), Poly) and (bp[2].env[nm] - head.env[nm]).as_int() is not None and (bp[2].env[nm] - head.env[nm]).as_int() > 0 for bp in bpaths)]
+  AN = cand[0] if len(cand) == 1 else "a"
+  others = [nm for nm in info["modified"] if nm != AN and isinstance(head.env.get(nm), Poly) and nm in pre.env]
   # (i) start value
-  a0 = pre.env.get("a")
+  a0 = pre.env.get(AN)
   want = sym.mk("isqrt", n) + 1
   ok = isinstance(a0, Poly) and (a0 - want).is_zero()
   ctx.record(R, f.where, "start a0 = isqrt(n) + 1", ok, "first candidate is ceil(sqrt n) on the non-square path" if ok else "start value is %r" % (a0,))
@@ -85,9 +99,9 @@ def rule_fermat(ctx):
              "loop entered only for odd non-square n" if sqfact and evenfact else "the even or perfect-square shortcut does not dominate the loop")
   # (ii) invariant
   inv = info.get("invariants", {})
-  a_h = head.env.get("a")
-  b2_h = head.env.get("b2")
-  ok = isinstance(a_h, Poly) and isinstance(b2_h, Poly) and (b2_h - (a_h * a_h - n)).is_zero()
+  a_h = head.env.get(AN)
+  b2s = [head.env.get(nm) for nm in others]
+  ok = isinstance(a_h, Poly) and bool(b2s) and any(isinstance(b2_h, Poly) and (b2_h - (a_h * a_h - n)).is_zero() for b2_h in b2s)
   ctx.record(R, f.where, "invariant b2 = a^2 - n", ok, "inferred and re-established by the body as a polynomial identity (%s)" % inv if ok
              else "b2 = a*a - n is not an inductive invariant of the loop (inferred: %s)" % inv)
   # (iii)/(iv) step and order
@@ -95,7 +109,7 @@ def rule_fermat(ctx):
   why = []
   for kind, val, s, since, visit in info["body_paths"]:
     if kind in ("fall", "continue"):
-      a_end = s.env.get("a")
+      a_end = s.env.get(AN)
       if not (isinstance(a_end, Poly) and (a_end - a_h - 1).is_zero()):
         step_ok = False
         why.append("a' = %r" % (a_end,))
@@ -157,45 +171,51 @@ def rule_guess_and_table(ctx):
       ctx.violation("R-C04-GUESS", f.where, norm(e.node), "FactorWithGuess is not applied to n")
       continue
     p0 = as_poly(args[1])
-    diff = e.state.env.get("diff")
-    verdict, detail = guess_exact(p0, n, as_poly(diff) if diff is not None else None)
+    # the difference tried in this pass: the element of the searched list (found in the guess itself; the loop variable's name is irrelevant)
+    diff = None
+    for info_ in w.loop_info.values():
+      for vis_ in info_["visits"]:
+        if vis_["iter"] is None or isinstance(vis_["iter"], tuple):
+          continue
+        el_ = sym.mk("idx", as_poly(vis_["iter"]), as_poly(vis_["k"]))
+        if el_.as_atom() is not None and el_.as_atom() in p0.all_atoms():
+          diff = el_
+    verdict, detail = guess_exact(p0, n, diff)
     ctx.record("R-C04-GUESS", f.where, norm(e.node), verdict, detail)
     # the result is released when truthy and the loop continues otherwise
   # table: fold `differences` with symbolic L
   R = "R-C04-TABLE"
-  tab = None
-  Lnode = None
-  for st in f.node.body:
-    if isinstance(st, ast.Assign) and isinstance(st.targets[0], ast.Name):
-      if st.targets[0].id == "prime_size":
-        Lnode = st.value
   loops = [x for x in ast.walk(f.node) if isinstance(x, ast.For)]
-  ok = Lnode is not None and ast.unparse(Lnode) in ("n.bit_length() // 2", "gmpy.bit_length(n) // 2")
-  ctx.record(R, f.where, "L = n.bit_length() // 2", ok, "prime size is half the modulus length" if ok else "prime_size is %s" % (ast.unparse(Lnode) if Lnode is not None else None))
-  folded = None
-  if len(loops) == 1:
-    it = loops[0].iter
-    src = None
-    if isinstance(it, ast.Name):
-      for st in f.node.body:
-        if isinstance(st, ast.Assign) and isinstance(st.targets[0], ast.Name) and st.targets[0].id == it.id:
-          src = st.value
+  Lterm0 = sym.mk("fdiv", sym.mk("bitlen", n), Poly.const(2))
+  # the list that is searched, as a value: every element 2 ** (L - c) with L = bit_length(n) // 2
+  elems = None
+  for info_ in w.loop_info.values():
+    for vis_ in info_["visits"]:
+      it_ = vis_["iter"]
+      if isinstance(it_, Seq):
+        elems = [as_poly(x) for x in it_.items if not isinstance(x, (Seq, tuple))]
+      elif isinstance(it_, Poly) and it_.as_atom() is not None and it_.as_atom().kind == "seq":
+        elems = [as_poly(x) for x in it_.as_atom().args]
+      elif isinstance(it_, Poly) and it_.as_atom() is not None and it_.as_atom().kind == "map" and len(it_.as_atom().args) == 3:
+        ma_ = it_.as_atom()
+        sa_ = as_poly(ma_.args[2]).as_atom()
+        if sa_ is not None and sa_.kind == "seq" and isinstance(ma_.args[0], Poly):
+          elems = [sym.rebuild(ma_.args[0].deep_subst(ma_.args[1], Poly.const(i_))) for i_ in range(len(sa_.args))]
+  consts_ = set()
+  okL = elems is not None and bool(elems)
+  for x in elems or []:
+    xa = x.as_atom()
+    if xa is not None and xa.kind == "pow" and as_poly(xa.args[0]).as_int() == 2 and (as_poly(xa.args[1]) - Lterm0).as_int() is not None:
+      consts_.add(-(as_poly(xa.args[1]) - Lterm0).as_int())
     else:
-      src = it
-    if src is not None:
-      folded = fold.try_fold(src, {"prime_size": Sym("L")})
-  if folded is None:
-    ctx.incomplete(R, f.where, "differences", "difference list is not a foldable literal over prime_size")
+      okL = False
+  ctx.record(R, f.where, "L = n.bit_length() // 2", okL, "prime size is half the modulus length" if okL else "the differences are not 2 ** (bit_length(n) // 2 - c): %s" % (repr(elems)[:120],))
+  if elems is None:
+    ctx.incomplete(R, f.where, "differences", "difference list is not a literal list of powers of two over the prime size")
   else:
-    got = set()
-    for x in folded:
-      if isinstance(x, Pow2):
-        got.add(x)
-    need = {Pow2(Sym("L") - k) for k in (100, 128, 160, 256, 2, 3)}
-    missing = need - got
+    missing = {100, 128, 160, 256, 2, 3} - consts_
     ctx.record(R, f.where, "differences", not missing, "covers 2^(L-100), 2^(L-128), 2^(L-160), 2^(L-256), 2^(L-2), 2^(L-3)" if not missing else
-               "documented difference(s) missing: %s" % sorted(map(repr, missing)))
-    # every element is tried: loop over the list without exit other than success
+               "documented difference(s) missing: %s" % sorted("2^(L-%d)" % c for c in missing))
   # gate
   Lterm = sym.mk("fdiv", sym.mk("bitlen", n), Poly.const(2))
   early = []
@@ -281,8 +301,13 @@ def rule_msb(ctx):
       probs.append("candidates are not storage.GetUnseededRands((bitlen + 1) // 2)")
   ctx.record(R, b.where(), "msb variants", not probs, "; ".join(sorted(set(probs))) or "tries p0, p0|msb, p0|msb|msb2 for the storage list of size (bitlen+1)//2")
   # every element of the list: the loop over the list is left only on success
-  f = b.func.node
-  loops = [x for x in ast.walk(f) if isinstance(x, ast.For) and isinstance(x.iter, ast.Name) and x.iter.id == "list_unseeded_rands"]
+  # the loop whose iterable is the value GetUnseededRands(..) returned (by value: the local holding the list may have any name)
+  loops = []
+  for info_ in b.w.loop_info.values():
+    for vis_ in info_["visits"]:
+      ia = vis_["iter"].as_atom() if isinstance(vis_["iter"], Poly) else None
+      if ia is not None and ia.kind == "mcall" and repr(ia.args[1]) == "lit('GetUnseededRands')" and info_["node"] not in loops:
+        loops.append(info_["node"])
   ok = len(loops) == 1
   ctx.record(R, b.where(), "all listed outputs are tried", ok, "loop ranges over the complete storage list (exits checked by R-C04-EXHAUST)" if ok else
              "no loop over the complete list of unseeded outputs")
@@ -303,6 +328,8 @@ def rule_exhaust(ctx, funcs=None, R="R-C04-EXHAUST"):
     f = repo.func(mod, name)
     fn = f.node
     par = parents(fn)
+    _SUCCESS_EXTRA.clear()
+    _SUCCESS_EXTRA.update(success_names_of(fn))
     # the function's failure value: value of the last top-level return (or the accumulator for Check bodies)
     fail = None
     for st in fn.body:
@@ -439,9 +466,27 @@ def block_of(node, par):
   return None
 
 
+_SUCCESS_EXTRA = set()
+
+
+def success_names_of(fn):
+  """Names that hold a success value in fn: whatever is handed to AttachFactors as the factor list or returned by name."""
+  out = set()
+  for n_ in ast.walk(fn):
+    if isinstance(n_, ast.Call) and ast.unparse(n_.func).endswith("AttachFactors") and n_.args and isinstance(n_.args[-1], ast.Name):
+      out.add(n_.args[-1].id)
+  # a name returned from inside a loop is a found result; the name returned at the end (the batch accumulator of a Check) is not
+  for lp in ast.walk(fn):
+    if isinstance(lp, (ast.For, ast.While)):
+      for n_ in ast.walk(lp):
+        if isinstance(n_, ast.Return) and isinstance(n_.value, ast.Name):
+          out.add(n_.value.id)
+  return out
+
+
 def is_success_test(t):
   """`if factors:` / `if test_result.result:` style truthiness test of the success variable."""
-  if isinstance(t, ast.Name) and t.id in SUCCESS_NAMES:
+  if isinstance(t, ast.Name) and (t.id in SUCCESS_NAMES or t.id in _SUCCESS_EXTRA):
     return True
   if isinstance(t, ast.Attribute) and t.attr in SUCCESS_NAMES:
     return True
@@ -516,10 +561,15 @@ def rule_lehman(ctx):
   ctx.record(R, f.where, "Fermat step on d = 4uvn: a = ceil(sqrt d), a^2 - d square, g = gcd(a + b, n)", not probs, "; ".join(sorted(set(probs))) or
              "(a + b)(a - b) = 4uvn: a + b shares a factor with n for a good convergent")
   # bound ~ n^(1/3)
-  b_e = [e for e in w.events if e.kind == "assign" and e.data["name"] == "bound"]
+  # the admissibility bound, as a value: whatever |u*q_0 - v*p_0| is compared with on the factor-producing paths
+  bvals = []
+  for e in rets:
+    for f_ in e.facts:
+      if f_[0] == "cmp" and f_[1] == "Lt" and isinstance(f_[2], Poly) and isinstance(f_[3], Poly) and f_[2] == sym.mk("abs", u * q0 - v * p0) and f_[3] not in bvals:
+        bvals.append(f_[3])
   okb = False
-  for e in b_e:
-    v_ = as_poly(e.data["value"]).as_atom()
+  for bv_ in bvals:
+    v_ = bv_.as_atom()
     if v_ is not None and v_.kind == "shl":
       inner = v_.args[0].as_atom()
       sh = v_.args[1]
@@ -648,3 +698,35 @@ def rule_listed(ctx):
     size = P("param", [q for q in g.params() if q != "self"][0])
     ok = bool(rets) and all("size_unseeded_map" in repr(e.data["value"]) and size.as_atom() in as_poly(e.data["value"]).all_atoms() for e in rets if isinstance(e.data["value"], Poly))
   ctx.record(R, "data.default_storage:GetUnseededRands", "lookup by the requested size", ok, "size_unseeded_map.get(size, empty)" if ok else "GetUnseededRands does not look the requested size up in size_unseeded_map")
+
+
+# ------------------------------------------------------------------ ALWAYS (every key of the batch is searched, whatever it already carries)
+SEARCH_OF = {"CheckFermat": "repo:rsa_util:FermatFactor", "CheckHighAndLowBitsEqual": "repo:rsa_util:FactorHighAndLowBitsEqual",
+             "CheckSmallUpperDifferences": "repo:rsa_util:CheckSmallUpperDifferences"}
+
+
+def rule_always(ctx):
+  """The statement is about every modulus of the stated shape: each pass of the per-key loop runs the search on that key's modulus with the configured
+  parameters - a pass that skips it (because the key already carries a result, say) leaves keys unsearched."""
+  R = "R-C04-ALWAYS"
+  repo = ctx.repo
+  for b in T.bodies(repo):
+    fn = SEARCH_OF.get(b.cls.name)
+    if fn is None:
+      continue
+    probs = []
+    n_paths = 0
+    for info in b.result_loops():
+      for kind, val, s_, since, vis in info["body_paths"]:
+        n_paths += 1
+        evs = b.path_events(s_, since)
+        calls = [e for e in evs if e.kind == "call" and e.data["name"] == fn]
+        if len(calls) != 1:
+          probs.append("a pass of the per-key loop makes %d calls of %s: some keys are not searched" % (len(calls), fn.split(":")[-1]))
+          continue
+        K = sym.mk("idx", b.artifacts, as_poly(vis["k"]))
+        if not (calls[0].data["args"] and isinstance(calls[0].data["args"][0], Poly) and calls[0].data["args"][0] == modulus_of(K)):
+          probs.append("the search is not applied to the modulus of the key of this pass")
+    if n_paths == 0:
+      probs.append("no per-key loop")
+    ctx.record(R, b.where(), "every key is searched", not probs, "; ".join(sorted(set(probs))) or "%d paths, one %s(n, ..) each" % (n_paths, fn.split(":")[-1]))
